@@ -27,6 +27,7 @@ from ..model import AnalysisError
 from ..x_taint import flow_taint, expr_tainted, HelperSummaries
 
 from ..x_http import norm_func
+from ..x_objalias import subst_object_aliases
 
 # private helpers that the rules model by name (sanitisers / summarised effects) and therefore must stay calls
 KEEP_CALLS = {"_format_chunk", "_convert_header_value", "_clear_representation_headers", "_can_keep_alive", "_compressible_type",
@@ -37,7 +38,7 @@ def F(ck, relpath, qualname):
     """The anchored function with its private same-file helpers inlined (function splitting is followed, depth 3)."""
     fi = ck.func(relpath, qualname)
     try:
-        return norm_func(ck.repo, fi, depth=3, no_inline=KEEP_CALLS)
+        return subst_object_aliases(norm_func(ck.repo, fi, depth=3, no_inline=KEEP_CALLS))
     except AnalysisError:
         raise
     except Exception as e:  # the normaliser must never turn into a verdict
@@ -263,6 +264,7 @@ MUTANTS = [
     ("addslash: '//' prepended instead of '/'", _in("addslash.<locals>.wrapper", replace_expr(_unstrip, lambda n: ast.BinOp(left=ast.Constant(value="//"), op=ast.Add(), right=n.right))), "C28.same-site"),
     ("authenticated: falls back to the requested URI when no login URL is configured", _in("authenticated.<locals>.wrapper", replace_stmt(lambda st: isinstance(st, ast.Assign) and "get_login_url" in _u(st.value), lambda st: [parse_stmt("url = self.get_login_url() or self.request.uri")])), "C28.login-only"),
     ("authenticated: redirects back to next_url for absolute login URLs", _in("authenticated.<locals>.wrapper", replace_stmt(lambda st: isinstance(st, ast.Assign) and "full_url" in _u(st.value), lambda st: [st, parse_stmt("url = next_url")])), "C28.login-only"),
+    ("authenticated: login URL resolved against the request URI with urljoin (seeded C28-adv4)", _in("authenticated.<locals>.wrapper", replace_stmt(lambda st: isinstance(st, ast.Assign) and "get_login_url" in _u(st.value), lambda st: [parse_stmt("url = urllib.parse.urljoin(self.request.uri, self.get_login_url())")])), "C28.login-only"),
     ("authenticated: request host placed in front of the login URL", _in("authenticated.<locals>.wrapper", replace_stmt(lambda st: isinstance(st, ast.AugAssign) and "urlencode" in _u(st), lambda st: [st, parse_stmt("url = '//' + self.request.host + url")])), "C28.login-only"),
     ("new request-derived redirect in RedirectHandler", _in("RedirectHandler.get", replace_stmt(lambda st: isinstance(st, ast.Assign) and "format" in _u(st.value), lambda st: [parse_stmt("to_url = self._url.format(*args, **kwargs) or self.request.path")])), "C28.inventory"),
 ]
